@@ -33,7 +33,9 @@ ERRNO = {'ENOENT': 2, 'EIO': 5, 'EBADF': 9, 'ENOMEM': 12, 'EACCES': 13, 'ENOTDIR
 def _pdeathsig():
     try:
         import ctypes, signal
-        ctypes.CDLL('libc.so.6').prctl(1, signal.SIGKILL)
+        libc = ctypes.CDLL('libc.so.6')
+        libc.prctl(1, signal.SIGKILL)
+        libc.personality(0x0040000)        # ADDR_NO_RANDOMIZE: the same plan in a fresh worker sees the same addresses
     except Exception:
         pass
 
@@ -130,6 +132,8 @@ class Result:
             if v == 'SIGNAL':
                 sig = d.split(' ')[0]
                 return 'TIMEOUT' if sig == '14' else 'SIGNAL-' + sig
+            if v == 'SLOW':
+                return 'SLOW'
             return v
         if self.died:
             rc, err = self.died
